@@ -50,7 +50,7 @@ RULE = (
     "status/cc/assigned_to/keywords/flag/without_tags/package_list_any, any_of (children may be & of chart queries), "
     "&, paged + 6 synthetic bugs over the same small vocabularies; non-trivial = >=2 leaves and the bugs split into "
     "matching and non-matching. batch cases: & of a long id list and/or long package list with other constraints, "
-    "random base_length/max_length; non-trivial = >=2 batches. distinct = canonical JSON of the description(+budget)"
+    "random base_length/max_length, plus slot-arithmetic cases: the split package list (40-400 atoms) behind 0-2 single conditions and 0-2 any_of groups of width 1..12/30/94..100 (rendered slot crosses 9->10, 99->100; class split_slot_digits_differ_from_position) with max_length tight over the fixed part; non-trivial = >=2 batches. distinct = canonical JSON of the description(+budget)"
 )
 ASSUMPTIONS = [
     "vf/ref/bz.py models Bugzilla: plain parameters OR within a key / AND across keys, chart slots walked in numeric "
@@ -209,6 +209,46 @@ def batch_case():
         st.sampled_from([0.0, 0.0, 0.1, 0.5]),
         st.lists(st.integers(0, 10_000), min_size=4, max_size=4),
         bugs(4),
+    )
+
+
+def slot_batch_case():
+    """batch cases aimed at slot arithmetic: the split package-list condition sits behind 0-2 single conditions and 0-2
+    any_of groups of varying width, so that its rendered slot number crosses 9->10 and 99->100 while its position among
+    the top level charts stays small; the value list is long (40-400 short atoms) and max_length is tight relative to
+    the fixed part, so several batches are filled to the brim."""
+    width = st.sampled_from([1, 2, 3, 4, 5, 6, 7, 7, 8, 8, 9, 10, 11, 12, 30, 94, 95, 96, 97, 97, 98, 99, 100])
+
+    def kwleaf(i):
+        return {"c": "keywords", "a": [KEYWORDS[i % len(KEYWORDS)]]}
+
+    def mk(n, stem, ver, op, widths, nsingles, nest, after, ids, slack, basefrac, picks, bugs):
+        pkgs = [f"{op}dev-libs/{stem}{i}-{ver}" for i in range(n)]
+        parts = [kwleaf(i) for i in range(nsingles)]
+        nconds = nsingles
+        for w in widths:
+            kids = [kwleaf(i) for i in range(w)]
+            if nest and w >= 3:
+                kids = [{"c": "any_of", "q": kids[:2]}] + kids[2:]
+            parts.append({"c": "any_of", "q": kids})
+            nconds += w
+        if ids:
+            parts.insert(0, {"c": "ids", "a": ids})
+        parts.append({"c": "package_list_any", "a": pkgs})
+        parts.extend(after)
+        q = parts[0]
+        for p in parts[1:]:
+            q = {"c": "and", "q": [q, p]}
+        fixed = 80 + 48 * nconds + 30 * len(widths) + 12 * len(ids)  # rough size of everything but the split values
+        maxlen = fixed + slack
+        return {"kind": "batch", "q": q, "max": maxlen, "base": int(slack * basefrac), "picks": picks, "bugs": bugs}
+
+    return st.builds(
+        mk, st.integers(40, 400), st.sampled_from(["p", "pkg", "libfoo-bar"]), st.sampled_from(["1", "1.2.3-r1"]),
+        st.sampled_from(["=", "=", "~", ""]).map(lambda o: o), st.lists(width, max_size=2), st.integers(0, 2), st.booleans(),
+        st.lists(leaf_chart(), max_size=1), st.one_of(st.just([]), st.just([]), _sub(BUG_IDS, 1, 3)),
+        st.one_of(st.integers(200, 900), st.integers(900, 3500)), st.sampled_from([0.0, 0.0, 0.0, 0.2]),
+        st.lists(st.integers(0, 10_000), min_size=4, max_size=4), bugs(4),
     )
 
 
@@ -502,6 +542,23 @@ def check_batch(ctx, case, record=True):
         elif depth == 0 and slots[s] == "cf_stabilisation_atoms":
             axes.append(f"v{s}")
     cl = ["batch", f"axes_{len(axes)}"]
+    # where does each splittable chart sit: rendered slot number vs. position among the top level charts
+    digits_differ = set()
+    pos = 0
+    depth = 0
+    for sl in sorted(slots):
+        if depth == 0:
+            pos += 1
+        if slots[sl] == "OP":
+            depth += 1
+        elif slots[sl] == "CP":
+            depth -= 1
+        elif depth == 0 and slots[sl] == "cf_stabilisation_atoms" and len(str(sl)) != len(str(pos)):
+            digits_differ.add(f"v{sl}")
+    if digits_differ:
+        cl.append("split_slot_digits_differ_from_position")
+        if any(int(a[1:]) >= 100 for a in digits_differ):
+            cl.append("split_slot_3_digits")
     if record:
         ctx.case(small, nontrivial=len(batches) >= 2, classes=cl + (["multi_batch"] if len(batches) >= 2 else []),
                  key=core.jdump([j, base, maxlen]))
@@ -546,13 +603,20 @@ def check_batch(ctx, case, record=True):
     rest = [(k, v) for k, v in P if k != ok_axis]
     vals = [v for k, v in P if k == ok_axis]
     budget = maxlen - base
-    every_single_fits = all(len(_enc(rest + [(ok_axis, v)])) <= budget for v in set(vals))
+    def singles_fit(ax):
+        r2 = [(k, v) for k, v in P if k != ax]
+        fixed = len(_enc(r2)) + (1 if r2 else 0)  # the rest, plus the "&" in front of the value
+        return all(fixed + len(_enc([(ax, v)])) <= budget for v in {v for k, v in P if k == ax})
+
+    every_single_fits = singles_fit(ok_axis)
     if len(batches) == 1 and len(axes) > 1:
         # one batch does not reveal which axis batches() chose (it divides only the widest one): demand the budget
         # only if a single value fits whichever axis was meant
-        for ax in axes:
-            r2 = [(k, v) for k, v in P if k != ax]
-            every_single_fits = every_single_fits and all(len(_enc(r2 + [(ax, v)])) <= budget for v in {v for k, v in P if k == ax})
+        every_single_fits = every_single_fits and all(singles_fit(ax) for ax in axes)
+    if ok_axis in digits_differ and len(batches) >= 2:
+        ctx.count("split_axis_slot_digits_differ_multi_batch")
+        if every_single_fits:
+            ctx.count("split_axis_slot_digits_differ_budget_checked")
     if every_single_fits:
         ctx.count("budget_checked")
         for i, B in enumerate(batches):
@@ -610,14 +674,14 @@ def check(ctx, case, record=True):
 # --------------------------------------------------------------------------- runner glue
 
 def plan(tier, seed):
+    # the cheap, bounded batch families first (a budget guard hit on a loaded machine then cuts into the render
+    # search, which degrades gracefully), few tasks (a worker's start-up costs seconds)
     if tier == "quick":
-        r, b, n = 900, 160, 8
+        b, sb, r, nb, nr = 150, 120, 1000, 4, 4
     else:
-        r, b, n = 15000, 2500, 16
-    tasks = []
-    for _ in range(n):
-        tasks.append({"task": "render", "examples": r})
-        tasks.append({"task": "batch", "examples": b})
+        b, sb, r, nb, nr = 2500, 2000, 15000, 16, 16
+    tasks = [{"task": "batch", "examples": b, "slot_examples": sb} for _ in range(nb)]
+    tasks += [{"task": "render", "examples": r} for _ in range(nr)]
     return tasks
 
 
@@ -625,6 +689,7 @@ def run_task(ctx, task, **kw):
     if task == "render":
         core.hyp_run(ctx, render_case(), lambda c: check(ctx, c), kw["examples"], chunk=500)
     elif task == "batch":
+        core.hyp_run(ctx, slot_batch_case(), lambda c: check(ctx, c), kw.get("slot_examples", 0), chunk=60, seed_salt=7)
         core.hyp_run(ctx, batch_case(), lambda c: check(ctx, c), kw["examples"], chunk=100, seed_salt=3)
     else:
         raise core.HarnessError(f"unknown task {task}")
